@@ -203,7 +203,12 @@ class Ed25519Key(PKey):
         return m
 
     def verify_ssh_sig(self, data, msg):
-        if msg.get_text() != self.name:
+        try:
+            sig_algorithm = msg.get_text()
+        except UnicodeDecodeError:
+            # not a name we know, whatever it is
+            return False
+        if sig_algorithm != self.name:
             return False
 
         try:
